@@ -13,6 +13,10 @@ DevListsNotCleared == {"ListsNotClearedOnStartPage"}
 DevWarningSection == {"WarningSectionFromSubsection"}
 DevCookieDup == {"CookieNotDeduplicated"}
 DevStripKeys == {"StripCounterKeyCollision"}
+\* "the argument is the current value already: nothing to do" shortcuts (re-announcements)
+DevSameSection == {"SameSectionShortcut"}
+DevSamePage == {"SamePageShortcut"}
+DevSubLikeSection == {"SubsectionNamedLikeSectionIgnored"}
 
 (* ---------------- universes ---------------- *)
 TitlesOne == {"Pg"}
@@ -35,6 +39,9 @@ ParseMsgs == {Text(<<>>, "p_b"), Text(<<>>, "p_looppre")}
 ExpandTables == {Text(<<>>, "plain"), Text(<<"x">>, "plain"), Text(<<"x", "y", "x">>, "plain"),
                  Text(<<>>, "loop"), Text(<<>>, "t1a"), Text(<<"y">>, "t2z")}
 ParseTables == {Text(<<"x">>, "p_plain"), Text(<<>>, "p_t1a"), Text(<<>>, "p_looppre")}
+\* one text per origin of a message inside expand() / parse(): loop warning (after its pop),
+\* "too many args" debug (argument reference), parser-function error deep in a template argument
+ExpandProducers == {Text(<<>>, "loop"), Text(<<>>, "toomany"), Text(<<>>, "argbadfn")}
 ExpandGen == {Text(<<>>, "plain"), Text(<<"x">>, "plain"), Text(<<"x", "y", "x">>, "plain"),
               Text(<<>>, "loop"), Text(<<>>, "argbadfn"), Text(<<>>, "t1a")}
 ParseGen == {Text(<<>>, "p_pre"), Text(<<>>, "p_b"), Text(<<>>, "p_looppre")}
@@ -50,16 +57,22 @@ MarkersMoreR == MarkersMore \cup {M("h", "preprocess")}
 MarkersReserved == {M("nowiki", ""), M("h", "c1"), M("h", "preprocess"), M("h", "nowiki")}
 
 (* ---------------- bounded next-state relation ---------------- *)
-DoStartPage == \E t \in Titles : StartPage(t)
-DoStartSection == \E s \in Sections : StartSection(s)
-DoStartSubsection == \E s \in Subsections : StartSubsection(s)
+\* the re-announcements (argument = the current value) are actions of their own, so that the
+\* coverage report shows that they are taken (the harness raises when one never is)
+DoStartPage == \E t \in Titles : ~SamePage(t) /\ StartPage(t)
+DoReStartPage == \E t \in Titles : SamePage(t) /\ StartPage(t)
+DoStartSection == \E s \in Sections : ~(SameSection(s) /\ subsection # None) /\ StartSection(s)
+DoReStartSection == \E s \in Sections : SameSection(s) /\ subsection # None /\ StartSection(s)   \* a subsection to clear
+DoStartSubsection == \E s \in Subsections : ~(SameSubsection(s) /\ s # None) /\ StartSubsection(s)
+DoReStartSubsection == \E s \in Subsections : SameSubsection(s) /\ s # None /\ StartSubsection(s)
 DoEmit == TotalMsgs < MaxMsgs /\ \E e \in EmitSet : Emit(e.kind, e.msg, e.trace, e.sortid)
 DoExpand == TotalMsgs < MaxMsgs /\ \E t \in ExpandTexts : Expand(t)
 DoParse == TotalMsgs < MaxMsgs /\ \E t \in ParseTexts : Parse(t)
 DoToReturn == ToReturn
 DoStrip == Len(markers) < MaxMarkers /\ \E m \in Markers : StripMarker(m.node, m.content)
 
-Next == DoStartPage \/ DoStartSection \/ DoStartSubsection \/ DoEmit \/ DoExpand \/ DoParse
+Next == DoStartPage \/ DoReStartPage \/ DoStartSection \/ DoReStartSection \/ DoStartSubsection \/ DoReStartSubsection
+        \/ DoEmit \/ DoExpand \/ DoParse
         \/ DoToReturn \/ DoStrip
 Spec == Init /\ [][Next]_svars
 =============================================================================
